@@ -593,6 +593,20 @@ func (c *HostClient) doNonNilReqResp(req *protocol.Request, resp *protocol.Respo
 		// try another connection if retry is enabled
 		return true, err
 	}
+	if c.IsTLS {
+		// The first write on a TLS connection runs the handshake, which reads from the
+		// peer as well: the time allowed for writing the request bounds those reads
+		// too, or the read timeout where writing has no limit (the read timeout
+		// proper is set once the request has been written).
+		handshakeTimeout := timeout
+		if handshakeTimeout <= 0 {
+			_, handshakeTimeout = updateReqTimeout(reqTimeout, rc.readTimeout, begin)
+		}
+		if err = conn.SetReadTimeout(handshakeTimeout); err != nil {
+			c.closeConn(cc)
+			return true, err
+		}
+	}
 
 	resetConnection := false
 	if c.MaxConnDuration > 0 && time.Since(cc.createdTime) > c.MaxConnDuration && !req.ConnectionClose() {
